@@ -1,17 +1,17 @@
 #!/venv/bin/python
-"""Regenerate coq/gen/*.v from /repo's current working tree (translators are added as they are built)."""
+"""Regenerate coq/gen/*.v from /repo's current working tree.  Prints one line `name ok|FAILED` per translator; a translator that cannot
+translate the current source writes a stub with `translation_failed := true`, so exactly the theorems that depend on it stop compiling."""
 import sys
 from pathlib import Path
 sys.path.insert(0, str(Path(__file__).resolve().parents[1]))
-ok = True
-try:
-    from translate import skeleton
-    ok &= skeleton.main()
-except ImportError:
-    pass
-try:
-    from translate import cli_surface
-    ok &= cli_surface.main()
-except ImportError:
-    pass
-sys.exit(0 if ok else 1)
+status = {}
+for name in ('skeleton', 'cli_surface', 'formulas', 'blocks'):
+    try:
+        mod = __import__('translate.' + name, fromlist=['main'])
+        status[name] = bool(mod.main())
+    except Exception as ex:      # noqa: BLE001  (a crash of a translator is a failed translation, not a crash of the check)
+        print(f'{name} crashed: {type(ex).__name__}: {ex}', file=sys.stderr)
+        status[name] = False
+for k, v in status.items():
+    print(k, 'ok' if v else 'FAILED')
+sys.exit(0 if all(status.values()) else 1)
